@@ -61,6 +61,7 @@ def cfg_strategy(draw, kinds=None, max_side=12):
         o, ri = draw(st.sampled_from(LAYOUTS + [(2, -1)] * 60))
         J = draw(st.integers(1, 3))
         cfg.update(biort=b, qshift=q, J=J, o_dim=o, ri_dim=ri,
+                   mode=draw(st.sampled_from(['symmetric', 'symmetric', 'symmetric', 'zero'])),
                    size=[draw(st.integers(2, max_side)), draw(st.integers(2, max_side))])
         if kind == 'dtcwt_fwd':
             cfg['skip'] = draw(st.sampled_from([False, False, True])) and [draw(st.booleans()) for _ in range(J)]
@@ -112,7 +113,7 @@ def build(cfg, dtype=torch.float64):
         if k == 'dtcwt_fwd':
             m = pw.DTCWTForward(biort=cfg['biort'], qshift=cfg['qshift'], J=cfg['J'], o_dim=cfg['o_dim'],
                                 ri_dim=cfg['ri_dim'], skip_hps=cfg.get('skip', False),
-                                include_scale=cfg.get('scales', False))
+                                include_scale=cfg.get('scales', False), mode=cfg.get('mode', 'symmetric'))
             o, ri = cfg['o_dim'], cfg['ri_dim']
 
             def f(ins):
@@ -122,7 +123,8 @@ def build(cfg, dtype=torch.float64):
                 return outs
             return m, f
         if k == 'dtcwt_inv':
-            m = pw.DTCWTInverse(biort=cfg['biort'], qshift=cfg['qshift'], o_dim=cfg['o_dim'], ri_dim=cfg['ri_dim'])
+            m = pw.DTCWTInverse(biort=cfg['biort'], qshift=cfg['qshift'], o_dim=cfg['o_dim'], ri_dim=cfg['ri_dim'],
+                                mode=cfg.get('mode', 'symmetric'))
             o, ri = cfg['o_dim'], cfg['ri_dim']
             return m, lambda ins: [m((ins[0], [to_layout(t, o, ri) for t in ins[1:]]))]
         if k in ('afb2d', 'afb2d_nonsep'):
